@@ -1458,7 +1458,9 @@ class FileSet:
             # Maybe there is a file with exact this timestamp?
             path = self.get_filename(timestamp, )
             if self.file_system.isfile(path):
-                return self.get_info(path)
+                file_info = self.get_info(path)
+                if not self.is_excluded(file_info):
+                    return file_info
         except (UnknownPlaceholderError, UnfilledPlaceholderError):
             pass
 
